@@ -263,7 +263,7 @@ def _(main_table_dir: Opt[Str], table_id: Str) -> Opt[Str]:
     pass
 
 
-@contract('rbql_csv.FileSystemCSVRegistry.get_iterator_by_table_id', name='C15.registry.open', props=['C15'], store_policy='none')
+@contract('rbql_csv.FileSystemCSVRegistry.get_iterator_by_table_id', name='C15.registry.open', props=['C15', 'C13', 'C04'], store_policy='none')
 def _(self: Obj['rbql_csv.FileSystemCSVRegistry'], table_id: Str, single_char_alias: Str) -> Opt[Obj['rbql_csv.CSVRecordIterator']]:
     requires(is_none(self.input_stream), 'no_join_file_open_yet')
     requires(is_none(self.encoding) or opt_val(self.encoding) == 'utf-8' or opt_val(self.encoding) == 'latin-1', 'known_encoding')
@@ -271,6 +271,10 @@ def _(self: Obj['rbql_csv.FileSystemCSVRegistry'], table_id: Str, single_char_al
     requires(implies(self.policy == 'simple', len(self.delim) >= 1), 'non_empty_delimiter')
     # C15: the file that is opened is remembered in input_stream BEFORE anything can fail, so finish() can close it on every path
     ensures(not is_none(result) and not is_none(self.input_stream) and is_fresh(opt_val(self.input_stream)), 'opened_file_is_remembered')
+    # C04 / C13: the join table is read in the dialect the registry was created with -- the B records are the records of the file as the
+    # input table's reader would see them (same delimiter, policy, encoding, header flag and comment prefix)
+    ensures(opt_val(result).has_header == self.has_header and opt_val(result).policy == self.policy and opt_val(result).delim == self.delim and opt_val(result).encoding == self.encoding
+            and opt_val(result).comment_prefix == (self.comment_prefix if (not is_none(self.comment_prefix) and len(opt_val(self.comment_prefix)) > 0) else None), 'join_table_is_read_in_the_dialect_of_the_registry')
     raises('rbql_engine.RbqlIOHandlingError', is_none(self.input_stream) or is_fresh(opt_val(self.input_stream)), 'nothing_opened_or_remembered')
     raises('OSError', is_none(self.input_stream), 'nothing_opened')
     modifies(self, anything())
